@@ -39,7 +39,8 @@ RULE = ("Hypothesis draws one simulation directory (harness/etgen.py: 3-7 "
         "four layouts, values encoding variable/iteration/level/restart/"
         "position injectively) and a list of 3-8 (thorough 3-12) read_data calls, each with "
         "a subset of variables mixing aurel tensor names and component names "
-        "(or [] = all), an unsorted iteration subset, a level, restart -1 or "
+        "(or [] = all; a time derivative together with its variable, in "
+        "either order, when both were written), an unsorted iteration subset, a level, restart -1 or "
         "fixed, split_per_it in {True, False}; the cache starts empty. After "
         "every call the returned values are compared with the ground truth "
         "and an uncached read, and every dataset of every all_iterations/"
